@@ -41,10 +41,13 @@ type c10Case struct {
 	// Overlap: polling: another data request of the same session is still uploading (its body held half-way) when
 	// this one arrives. The server refuses an overlapping request; what it may consume of its body is bounded all the same
 	Overlap bool
+	// BlockedWriter: websocket: the peer has stopped reading and the server's writer is stuck in a write when the
+	// oversized message arrives (the connection cannot be torn down at once); more messages follow it
+	BlockedWriter bool
 }
 
 func (c c10Case) String() string {
-	return fmt.Sprintf("{L=%d %s rev%d size=%d(%s) decl=%s packets=%d layout=%s frag=%d b64=%v upgraded=%v cut=%d otherServerLimit=%d overlap=%v}", c.L, c.Path, c.Rev, c.Size, c.SizeCls, c.Decl, c.Multi, c.Layout, c.Frag, c.B64, c.Upgraded, c.Cut, c.Other, c.Overlap)
+	return fmt.Sprintf("{L=%d %s rev%d size=%d(%s) decl=%s packets=%d layout=%s frag=%d b64=%v upgraded=%v cut=%d otherServerLimit=%d overlap=%v blockedWriter=%v}", c.L, c.Path, c.Rev, c.Size, c.SizeCls, c.Decl, c.Multi, c.Layout, c.Frag, c.B64, c.Upgraded, c.Cut, c.Other, c.Overlap, c.BlockedWriter)
 }
 
 func genC10(rt *rapid.T, known bool, col *Collector) c10Case {
@@ -91,6 +94,7 @@ func genC10(rt *rapid.T, known bool, col *Collector) c10Case {
 		c.Overlap = c.L >= 8 && rapid.IntRange(0, 3).Draw(rt, "overlap") == 0
 	case "ws":
 		c.Layout = rapid.SampledFrom([]string{"single", "single", "fragments", "header-only-64bit", "deflated", "deflated"}).Draw(rt, "layout")
+		c.BlockedWriter = (c.Layout == "single" || c.Layout == "deflated") && c.Size > c.L && c.L >= 16 && rapid.IntRange(0, 2).Draw(rt, "blockedWriter") == 0
 		if c.Layout == "fragments" {
 			c.Frag = int(rapid.Int64Range(1, c.L).Draw(rt, "frag"))
 			if c.Size/int64(c.Frag) > 3000 {
@@ -351,6 +355,13 @@ func runC10(c c10Case) (fail string, stats map[string]bool) {
 				}
 				stats["fragmented"] = true
 			}
+			if c.BlockedWriter {
+				s.wc.StopReading()
+				w.AppSend(sr, msgT(strings.Repeat("w", 300000)), nil, false, 0)
+				Settle()
+				stats["oversized-message-while-the-writer-is-blocked"] = true
+				defer s.wc.NetworkGivesUp()
+			}
 			if c.Layout == "deflated" {
 				if !s.wc.Negotiated() {
 					return "harness: permessage-deflate was not negotiated", stats
@@ -364,6 +375,27 @@ func runC10(c c10Case) (fail string, stats map[string]bool) {
 				s.wc.SendPacket(Pkt{Type: tMessage, Data: data}, frags)
 			}
 			Settle()
+			if c.BlockedWriter {
+				// (the library's own refusal of an oversized frame first tries to write a close frame, for up to a
+				// second, behind the blocked writer)
+				time.Sleep(1500 * time.Millisecond)
+				Settle()
+				// the client, unaware, sends on: none of this may be consumed by a server that has given up on the connection
+				for k := 0; k < 4; k++ {
+					s.wc.SendPacket(Pkt{Type: tMessage, Data: bytes.Repeat([]byte("m"), int(c.L)-1)}, nil)
+					Settle()
+				}
+				if m := maxDelivered(); int64(m) > c.L {
+					return fmt.Sprintf("a message of %d bytes was delivered over websocket (%s), limit %d", m, c.Layout, c.L), stats
+				}
+				if len(sr.Msgs) != 0 || len(sr.Closes) != 1 {
+					return fmt.Sprintf("oversized websocket message (%d > %d, %s) while the server's writer is blocked: %d messages delivered, closes %v", c.Size, c.L, c.Layout, len(sr.Msgs), sr.Closes), stats
+				}
+				if got := srvRead() - before; got > c.L+14+c10Slack {
+					return fmt.Sprintf("after an oversized websocket message (%s) the server went on reading the connection while its writer was blocked: %d bytes consumed, limit %d (+%d allowed)", c.Layout, got, c.L, 14+c10Slack), stats
+				}
+				return "", stats
+			}
 			s.wc.Pump()
 			if m := maxDelivered(); int64(m) > c.L {
 				return fmt.Sprintf("a message of %d bytes was delivered over websocket (%s), limit %d", m, c.Layout, c.L), stats
@@ -506,7 +538,7 @@ func TestC10MaxPayload(t *testing.T) {
 			rt.Fatalf("%v: %s", c, clipStr(res.Leak, 1500))
 		}
 	})
-	col.RequireClasses(t, "413", "delivered", "connection-terminated", "header-only", "fragmented", "within-1-of-limit", "path.polling", "path.jsonp", "path.ws", "path.wt", "decl.lying-big", "decl.lying-small", "after-upgrade", "frame-header-split-in-transit", "second-server-built-from-the-same-options-object", "overlapping-a-held-upload", "compressed-frame-inflating-past-the-limit")
+	col.RequireClasses(t, "413", "delivered", "connection-terminated", "header-only", "fragmented", "within-1-of-limit", "path.polling", "path.jsonp", "path.ws", "path.wt", "decl.lying-big", "decl.lying-small", "after-upgrade", "frame-header-split-in-transit", "second-server-built-from-the-same-options-object", "overlapping-a-held-upload", "compressed-frame-inflating-past-the-limit", "oversized-message-while-the-writer-is-blocked")
 }
 
 func TestC10ChunkedFinding(t *testing.T) {
